@@ -23,8 +23,9 @@ class Entry:
         if perturb and "noperturb" not in self.flags:
             g = torch.Generator().manual_seed(seed + 7)
             with torch.no_grad():
+                amp = 0.5 if "bigperturb" in self.flags else 0.1
                 for n, p in m.named_parameters():
-                    p.add_(0.1 * torch.randn(p.shape, generator=g))
+                    p.add_(amp * torch.randn(p.shape, generator=g))
         return m
 
     def x(self, n=4, seed=0, dtype=None):
@@ -108,6 +109,12 @@ def entries():
         add("Piecewise%sCoupling" % nm, "transform", (lambda cls=cls: cls(mask4, resnet(), num_bins=4)), _ru(4), flags={"inv", "bounded01", "spline"})
         add("Piecewise%sCoupling/tails" % nm, "transform", (lambda cls=cls: cls(mask4, resnet(3), num_bins=4, tails="linear", tail_bound=1.5)), _rn(4), _rn(3), flags={"inv", "spline"})
         add("Piecewise%sCoupling/image+uncond" % nm, "transform", (lambda cls=cls: cls([1, 0, 1], convnet(), num_bins=3, tails="linear", tail_bound=2.0, apply_unconditional_transform=True, img_shape=[2, 3])), _rn(3, 2, 3), flags={"inv", "image", "spline"})
+    mins = dict(min_bin_width=0.05, min_bin_height=0.04, min_derivative=0.06)
+    add("PiecewiseRQCoupling/tails+mins", "transform", lambda: TR.PiecewiseRationalQuadraticCouplingTransform(mask4, resnet(3), num_bins=4, tails="linear", tail_bound=1.5, **mins), _rn(4), _rn(3), flags={"inv", "spline", "bigperturb"})
+    add("PiecewiseQuadraticCoupling/tails+mins", "transform", lambda: TR.PiecewiseQuadraticCouplingTransform(mask4, resnet(), num_bins=4, tails="linear", tail_bound=1.5, min_bin_width=0.05, min_bin_height=0.04), _rn(4), flags={"inv", "spline", "bigperturb"})
+    add("PiecewiseCubicCoupling/tails+mins", "transform", lambda: TR.PiecewiseCubicCouplingTransform(mask4, resnet(), num_bins=4, tails="linear", tail_bound=1.5, min_bin_width=0.05, min_bin_height=0.04), _rn(4), flags={"inv", "spline", "bigperturb"})
+    add("MaskedPiecewiseRQAR/tails+mins", "transform", lambda: TR.MaskedPiecewiseRationalQuadraticAutoregressiveTransform(3, 8, num_bins=4, num_blocks=1, tails="linear", tail_bound=1.5, **mins), _rn(3), flags={"inv", "spline", "bigperturb"})
+    add("PiecewiseRQCDF/tails+mins", "transform", lambda: NL.PiecewiseRationalQuadraticCDF([3], num_bins=4, tails="linear", tail_bound=1.5, **mins), _rn(3), flags={"inv", "spline", "bigperturb"})
     add("UMNNCoupling", "transform", lambda: TR.UMNNCouplingTransform(mask4, resnet(), integrand_net_layers=[8, 8], cond_size=3, nb_steps=15), _rn(4), flags={"inv", "umnn"})
     # ---- autoregressive
     add("MaskedAffineAR", "transform", lambda: TR.MaskedAffineAutoregressiveTransform(3, 8, num_blocks=1), _rn(3), flags={"inv"})
